@@ -60,15 +60,11 @@ func (f *Decf) Call(s *slip.Scope, args slip.List, depth int) (result slip.Objec
 			delta = -td
 		case *slip.LongFloat:
 			z := (*big.Float)(td)
-			result = (*slip.LongFloat)(z.Neg(z))
+			delta = (*slip.LongFloat)(new(big.Float).SetMode(z.Mode()).Neg(z))
 		case *slip.Bignum:
-			z := (*big.Int)(td)
-			result = (*slip.Bignum)(z.Neg(z))
+			delta = (*slip.Bignum)(new(big.Int).Neg((*big.Int)(td)))
 		case *slip.Ratio:
-			den := (*big.Rat)(td).Denom()
-			num := (*big.Rat)(td).Num()
-			num = (num.Neg(num))
-			delta = (*slip.Ratio)((*big.Rat)(td).SetFrac(num, den))
+			delta = (*slip.Ratio)(new(big.Rat).Neg((*big.Rat)(td)))
 		case slip.Complex:
 			delta = slip.Complex(complex(-real(td), -imag(td)))
 		default:
